@@ -54,6 +54,7 @@ func (s flagState) joinFrom(o flagState) bool {
 type catchAnalysis struct {
 	P               *Prog
 	viaValue        map[ssa.Instruction]string // dynamic calls that can dispatch into a node method
+	everSetMemo     map[*types.Var]bool
 	flags           []*types.Var
 	memo            map[*ssa.Function]map[int]map[*types.Var]bool // fn -> param idx -> flags dirty at exit (given clean entry)
 	busy            map[*ssa.Function]bool
@@ -415,11 +416,85 @@ func (ca *catchAnalysis) run(fn *ssa.Function, init flagState) ([]dispatchSite, 
 		entry.joinFrom(init)
 	}
 	in[fn.Blocks[0]] = entry
+	// go/ssa performs no CSE: every `c.ctx` is a new load. Loads of the same field of the same (never
+	// reassigned) base are one context: keyed by the first of them.
+	loadKey := map[string]ssa.Value{}
+	unifyLoads := func(v ssa.Value) ssa.Value {
+		b, f := loadOfField(v)
+		if f == nil {
+			return v
+		}
+		bb := cv(b)
+		// the base must be immutable here: a parameter, or a local spill of one
+		if u, ok := bb.(*ssa.UnOp); ok {
+			if al, ok := u.X.(*ssa.Alloc); ok {
+				if sts := storesTo(al); len(sts) == 1 {
+					bb = sts[0].Val
+				}
+			}
+		}
+		if al, ok := bb.(*ssa.Alloc); ok {
+			if sts := storesTo(al); len(sts) == 1 {
+				bb = sts[0].Val
+			}
+		}
+		if _, isP := bb.(*ssa.Parameter); !isP {
+			return v
+		}
+		// the field itself must not be written in this function
+		written := false
+		eachInstr(fn, func(_ *ssa.BasicBlock, _ int, in ssa.Instruction) {
+			if st, ok := in.(*ssa.Store); ok {
+				if _, sf := fieldVar(st.Addr); sf != nil && sameField(sf, f) {
+					written = true
+				}
+			}
+		})
+		if written {
+			return v
+		}
+		k := bb.Name() + "." + f.Name()
+		if first, ok := loadKey[k]; ok {
+			return first
+		}
+		loadKey[k] = v
+		return v
+	}
+	// a context reached through a field of a struct parameter (`c.ctx` of `children{ctx, mode}`) in a function
+	// that is not a node method: nothing is known about the state it arrives in
+	carried := func(v ssa.Value) bool {
+		if _, isNode := R.Dispatch[fn]; isNode {
+			return false
+		}
+		b, f := loadOfField(v)
+		if f == nil {
+			return false
+		}
+		p, isP := cv(b).(*ssa.Parameter)
+		if !isP {
+			// a value receiver is spilled: the load is from a local holding the parameter
+			if u, ok := cv(b).(*ssa.UnOp); ok {
+				if al, ok := u.X.(*ssa.Alloc); ok {
+					if sts := storesTo(al); len(sts) == 1 {
+						p, isP = sts[0].Val.(*ssa.Parameter)
+					}
+				}
+			}
+			if al, ok := b.(*ssa.Alloc); ok && !isP {
+				if sts := storesTo(al); len(sts) == 1 {
+					p, isP = sts[0].Val.(*ssa.Parameter)
+				}
+			}
+		}
+		return isP && p.Parent() == fn && P.carriesCtx(p.Type())
+	}
 	get := func(st flagState, v ssa.Value) map[*types.Var]bool {
 		if st[v] == nil {
 			st[v] = map[*types.Var]bool{}
+			dirty := carried(v)
 			for _, f := range ca.flags {
-				st[v][f] = false // values first seen (e.g. parent's ctx in a closure) are clean by assumption
+				// (a flag nothing in the module ever sets cannot arrive set)
+				st[v][f] = dirty && ca.everSet(f) // other values first seen (e.g. parent's ctx in a closure) are clean by assumption
 			}
 		}
 		return st[v]
@@ -449,7 +524,7 @@ func (ca *catchAnalysis) run(fn *ssa.Function, init flagState) ([]dispatchSite, 
 					if f == nil {
 						continue
 					}
-					bv := cv(base)
+					bv := unifyLoads(cv(base))
 					if !ca.isCtxVal(bv) {
 						continue
 					}
@@ -464,7 +539,7 @@ func (ca *catchAnalysis) run(fn *ssa.Function, init flagState) ([]dispatchSite, 
 					}
 				case *ssa.If:
 					if base, f := loadOfField(cv(x.Cond)); f != nil && sameField(f, R.FExit) {
-						bv := cv(base)
+						bv := unifyLoads(cv(base))
 						if ca.isCtxVal(bv) {
 							cur := get(st, bv)
 							us := usesAt[ins]
@@ -550,7 +625,7 @@ func (ca *catchAnalysis) run(fn *ssa.Function, init flagState) ([]dispatchSite, 
 					name, isDisp := ca.dispatchCallee(ci)
 					args := ci.args()
 					for ai, a := range args {
-						av := cvi(a)
+						av := unifyLoads(cvi(a))
 						if !ca.isCtxVal(av) {
 							continue
 						}
@@ -1065,11 +1140,29 @@ func (P *Prog) dispatchLike(ci *callInfo) bool {
 	}
 	hasCtx := false
 	for _, a := range ci.args() {
-		if ca.isCtxVal(a) {
+		if ca.isCtxVal(a) || P.carriesCtx(a.Type()) {
 			hasCtx = true
 		}
 	}
 	return hasCtx && P.helperDispatches(ci.static, 0)
+}
+
+// carriesCtx: a small struct (or pointer to one) of the module with a node-context field
+// (`children{ctx, mode}`), handed to the helper that runs the child on it.
+func (P *Prog) carriesCtx(t types.Type) bool {
+	if p, ok := t.Underlying().(*types.Pointer); ok {
+		t = p.Elem()
+	}
+	st, ok := t.Underlying().(*types.Struct)
+	if !ok || sameNamed(namedOf(t), P.roles.SchemaCtx) {
+		return false
+	}
+	for i := 0; i < st.NumFields(); i++ {
+		if P.isPtrTo(st.Field(i).Type(), P.roles.SchemaCtx) {
+			return true
+		}
+	}
+	return false
 }
 
 func (P *Prog) helperDispatches(fn *ssa.Function, depth int) bool {
@@ -1104,7 +1197,7 @@ func (P *Prog) helperDispatches(fn *ssa.Function, depth int) bool {
 		}
 		if ci.static != nil && ci.static.Blocks != nil && inModule(funcPkgPath(ci.static)) {
 			for _, a := range ci.args() {
-				if ca.isCtxVal(a) && P.helperDispatches(ci.static, depth+1) {
+				if (ca.isCtxVal(a) || P.carriesCtx(a.Type())) && P.helperDispatches(ci.static, depth+1) {
 					res = true
 				}
 			}
@@ -1112,4 +1205,36 @@ func (P *Prog) helperDispatches(fn *ssa.Function, depth int) bool {
 	})
 	P.helperDispMemo[fn] = res
 	return res
+}
+
+// everSet: some store in the module writes something other than the constant false into the flag.
+func (ca *catchAnalysis) everSet(f *types.Var) bool {
+	if ca.everSetMemo == nil {
+		ca.everSetMemo = map[*types.Var]bool{}
+		for _, fn := range ca.P.Funcs {
+			eachInstr(fn, func(_ *ssa.BasicBlock, _ int, in ssa.Instruction) {
+				st, ok := in.(*ssa.Store)
+				if !ok {
+					return
+				}
+				_, sf := fieldVar(st.Addr)
+				if sf == nil {
+					return
+				}
+				for _, fl := range ca.flags {
+					if sameField(sf, fl) {
+						if c, isC := constBool(st.Val); !isC || c {
+							ca.everSetMemo[fl] = true
+						}
+					}
+				}
+			})
+		}
+	}
+	for fl, v := range ca.everSetMemo {
+		if sameField(fl, f) && v {
+			return true
+		}
+	}
+	return false
 }
